@@ -112,12 +112,29 @@ func directedNesting(c *ctx) {
 		}
 		rec("", nil, 0)
 	}
+	// an element pattern registered through AllowNoAttrs after the policy has sanitised that element
+	for v := 0; v < 3; v++ {
+		first := []*bmx.Op{{Kind: "AE", Names: []string{"b", "div"}}, {Kind: "AA", Names: []string{"id"}, Scope: "M", ScopeRe: bmx.NewRE(`^y-`)}}
+		later := []*bmx.Op{{Kind: "AA", Empty: true, Scope: "M", ScopeRe: bmx.NewRE(`^x-`)}}
+		if v == 1 {
+			later = []*bmx.Op{{Kind: "AEM", Re: bmx.NewRE(`^x-`)}}
+		}
+		if v == 2 {
+			later = []*bmx.Op{{Kind: "AA", Names: []string{"id"}, Scope: "M", ScopeRe: bmx.NewRE(`^x-`)}}
+		}
+		probes := []string{"<x-card>hello</x-card>", "<b><x-card id=1>t</x-card></b>"}
+		pid, pol := c.policyStaged([][]*bmx.Op{first, later}, probes)
+		for _, d := range []string{"<x-card>hello</x-card>", "<b><x-card id=\"1\">t</x-card></b>", "<div><x-a><x-b id=\"2\">u</x-b></x-a></div>"} {
+			c.san(pid, pol, []byte(d))
+		}
+	}
 	families["san"](c)
 }
 
 // C11: all orders and multiplicities of href/rel/target × rel values × the 32 option sets
 func directedC11(c *ctx) {
-	hrefs := []string{"http://example.com/", "/local", "//host/x", "http:\\\\host", "mailto:a@b.c", "#f", "HTTPS://UP/", "http:/nohost", ""}
+	hrefs := []string{"http://example.com/", "/local", "//host/x", "http:\\\\host", "mailto:a@b.c", "#f", "HTTPS://UP/", "http:/nohost", "",
+		"/%2Fexample.com/caf\u00e9", "%2F%2Fexample.com/x|y", "/%2fevil.example/a^b"}
 	rels := []string{"", "nofollow", "noopener", "noreferrer", "nofollow noopener noreferrer", "xnofollowx", "NOFOLLOW", "author", "noopenerx", "NoOpener", "nofollow x", "a\tnofollow", "nofollow nofollow"}
 	targets := []string{"_blank", "_BLANK", "_self", "", "_blanK"}
 	els := []string{"a", "area", "link", "base", "b"}
@@ -250,6 +267,29 @@ func directedC03(c *ctx) {
 			}
 		}
 	}
+	// a scheme admitted by a scheme pattern, used, then given a custom check (the check must bind)
+	for v := 0; v < 4; v++ {
+		base := []*bmx.Op{{Kind: "AE", Names: []string{"a", "img", "q"}}, {Kind: "AA", Names: []string{"href", "src", "cite"}, Scope: "G"},
+			{Kind: "USM", Re: bmx.NewRE(`^(app|x-[a-z]+)$`)}, {Kind: "US", Names: []string{"https"}}}
+		later := []*bmx.Op{{Kind: "UC", Names: []string{"app"}, Cb: "host=good.example"}}
+		if v%2 == 1 {
+			later = append(later, &bmx.Op{Kind: "UC", Names: []string{"x-note"}, Cb: "never"})
+		}
+		probes := []string{"<a href=\"app://bad.example/x\">t</a>", "<img src=\"x-note://h/1\">", "<q cite=\"app://good.example/\">q</q>"}
+		pid, pol := c.policyStaged([][]*bmx.Op{base, later}, probes)
+		for _, d := range append(probes, "<a href=\"app://good.example/ok\">t</a>", "<a href=\"x-other://h/\">t</a>", "<a href=\"https://a.b/\">t</a>") {
+			c.san(pid, pol, []byte(d))
+		}
+	}
+	// a src rewriter whose target the policy itself would not accept from a user
+	for v := 0; v < 4; v++ {
+		ops := []*bmx.Op{{Kind: "AE", Names: []string{"img", "audio"}}, {Kind: "AA", Names: []string{"src"}, Scope: "G"},
+			{Kind: "US", Names: []string{"http"}}, {Kind: "RU", Flag: v%2 == 1}, {Kind: "RW", Cb: []string{"relproxy", "proxy=proxy.example", "relproxy", "sethost=cdn.example"}[v]}}
+		pid, pol := c.policy(ops)
+		for _, d := range []string{"<img src=\"http://a.example/1.png\">", "<audio src=\"http://a.example/a.mp3?x=1\"></audio>", "<img src=\"/local.png\">", "<img src=\"https://a.example/2.png\">"} {
+			c.san(pid, pol, []byte(d))
+		}
+	}
 	families["san"](c)
 }
 
@@ -307,6 +347,32 @@ func directedC07(c *ctx) {
 			c.san(pid, pol, []byte(d))
 		}
 	}
+	// rules bound to an element pattern after the policy has been used (same regexp value reused)
+	for v := 0; v < 4; v++ {
+		re := bmx.NewRE(`^my-`)
+		first := []*bmx.Op{{Kind: "AEM", Re: re}, {Kind: "AA", Names: []string{"kind"}, Re: bmx.NewRE(`^[0-9]+$`), Scope: "M", ScopeRe: re}}
+		later := []*bmx.Op{{Kind: "AA", Names: []string{"size"}, Re: bmx.NewRE(`^(big|small)$`), Scope: "M", ScopeRe: re}}
+		if v%2 == 1 {
+			later = []*bmx.Op{{Kind: "AA", Empty: true, Scope: "M", ScopeRe: bmx.NewRE(`^x-`)}, {Kind: "AA", Names: []string{"size"}, Scope: "M", ScopeRe: re}}
+		}
+		probes := []string{"<my-card kind=\"42\">c</my-card>", "<x-card>hello</x-card>"}
+		pid, pol := c.policyStaged([][]*bmx.Op{first, later}, probes)
+		for _, d := range []string{"<my-card kind=\"42\" size=\"big\">c</my-card>", "<my-list kind=\"7\" size=\"small\">l</my-list>", "<x-card>hello</x-card>", "<my-card size=\"big\">c</my-card>"} {
+			c.san(pid, pol, []byte(d))
+		}
+	}
+	// long tokens: a conforming document is returned unchanged whatever its size
+	{
+		ops := []*bmx.Op{{Kind: "AE", Names: []string{"p", "b"}}, {Kind: "AA", Names: []string{"title"}, Scope: "G"}}
+		pid, pol := c.policy(ops)
+		for _, n := range []int{5000, 70000, 140000} {
+			for _, doc := range []string{"<p>" + strings.Repeat("lorem ipsum ", n/12) + "</p>", "<p title=\"" + strings.Repeat("a", n) + "\">t</p>",
+				strings.Repeat("<b>x</b>", n/8)} {
+				ok := pol.Sanitize(doc) == doc && string(pol.SanitizeBytes([]byte(doc))) == doc && pol.SanitizeReader(strings.NewReader(doc)).String() == doc
+				fmt.Fprintf(c.w, "big %d %d %s\n", pid, len(doc), b01(ok))
+			}
+		}
+	}
 	pid, pol := c.shipped("@UGC")
 	g := bmx.NewDocGen(c.r, nil)
 	g.Els = strings.Fields("article aside figure section summary h1 h2 h3 hgroup br div hr p span wbr abbr cite code em mark s strong sub sup var b i pre small u rp rt ruby dl dt dd caption")
@@ -361,6 +427,23 @@ func directedC02(c *ctx) {
 			c.san(pid, pol, []byte("<my-x class>t</my-x><my-x>u</my-x><my-x class=aaa class=zzz id=1>v</my-x>"))
 		}
 	}
+	// two value patterns for one attribute in one scope, the first with an inline flag
+	for _, scope := range []string{"E", "M", "G"} {
+		mk := func(src string) *bmx.Op {
+			o := &bmx.Op{Kind: "AA", Names: []string{"align"}, Re: bmx.NewRE(src), Scope: scope}
+			if scope == "E" {
+				o.ScopeEl = []string{"td"}
+			}
+			if scope == "M" {
+				o.ScopeRe = bmx.NewRE(`^t[dh]$`)
+			}
+			return o
+		}
+		pid, pol := c.policy([]*bmx.Op{{Kind: "AE", Names: []string{"td"}}, mk(`(?i)^(left|right)$`), mk(`^(start|end)$`)})
+		for _, v := range []string{"left", "LEFT", "start", "START", "End", "end", "center"} {
+			c.san(pid, pol, []byte("<td align=\""+v+"\">t</td>"))
+		}
+	}
 	// data attributes: names around the documented shape data-*
 	for _, withClass := range []bool{false, true} {
 		ops := []*bmx.Op{{Kind: "AE", Names: []string{"b"}}, {Kind: "DA"}}
@@ -378,6 +461,35 @@ func directedC02(c *ctx) {
 var dataAttrNames = []string{"data-a", "data-foo-bar", "data-", "data", "xdata-foo", ":data-id", "v-bind:data-id", "[attr.data-id]", "adata-x",
 	"data-xml", "data-xmlfoo", "data-a:b", "data-a;b", "data-adata-;x", "data-data-a", "data-A", "DATA-a", "data-é", "data-1", "data--", "data-a.b", "data-a_b",
 	"on\"data-x", "data-a<b", "data-a=b", "class", "dataset", "data-a/b"}
+
+// C18 through the policy: matcher-less style rules for several properties in one call, each of
+// which must get the default handler of its own property (none for an unknown property)
+func directedC18(c *ctx) {
+	props := [][]string{{"background-image", "width", "color", "behavior"}, {"color", "list-style-image", "no-such-prop", "height"}, {"width", "behavior"}}
+	for _, names := range props {
+		for _, scope := range []string{"E", "M", "G"} {
+			as := &bmx.Op{Kind: "AS", Names: names, Scope: scope}
+			aa := &bmx.Op{Kind: "AA", Names: []string{"style"}, Scope: "G"}
+			switch scope {
+			case "E":
+				as.ScopeEl = []string{"div", "x-a"}
+			case "M":
+				as.ScopeRe = bmx.NewRE(`^(div|x-)`)
+			}
+			pid, pol := c.policy([]*bmx.Op{{Kind: "AE", Names: []string{"div", "x-a", "span"}}, aa, as})
+			vals := []string{"url(http://a.b/c.png)", "none", "inherit", "1px", "red", "expression(alert(1))", "url(javascript:alert(1))"}
+			for _, el := range []string{"div", "x-a", "span"} {
+				for _, v := range vals {
+					var decls []string
+					for _, n := range names {
+						decls = append(decls, n+": "+v)
+					}
+					c.san(pid, pol, []byte("<"+el+" style=\""+strings.Join(decls, "; ")+"\">t</"+el+">"))
+				}
+			}
+		}
+	}
+}
 
 // C10: every combination of style-rule sources (element, element pattern, global) for an
 // element that is declared by name or only matched by a pattern
@@ -440,6 +552,16 @@ func directedC10(c *ctx) {
 		pid, pol := c.policy(ops)
 		for _, d := range []string{"<x-a-wide style=\"color: red; width: 1px\">b</x-a-wide>", "<x-a style=\"color: red; width: 1px\">a</x-a>",
 			"<y-wide style=\"color: red; width: 1px\">w</y-wide>", "<x-b-wide style=\"width: 2px; color: blue\">b</x-b-wide>", "<x-c style=\"width: 1px\">c</x-c>"} {
+			c.san(pid, pol, []byte(d))
+		}
+	}
+	// style rules given to two elements in one call, then a further rule for only one of them
+	for v := 0; v < 2; v++ {
+		ops := []*bmx.Op{{Kind: "AA", Names: []string{"style"}, Scope: "G"}, {Kind: "AE", Names: []string{"div", "span"}},
+			{Kind: "AS", Names: []string{"color"}, Scope: "E", ScopeEl: []string{"div", "span"}},
+			{Kind: "AS", Names: []string{"position"}, Enum: []string{"fixed"}, Scope: "E", ScopeEl: []string{[]string{"div", "span"}[v]}}}
+		pid, pol := c.policy(ops)
+		for _, d := range []string{"<span style=\"position: fixed; color: red\">s</span>", "<div style=\"position: fixed; color: red\">d</div>"} {
 			c.san(pid, pol, []byte(d))
 		}
 	}
